@@ -33,6 +33,10 @@ def attribute(req, event, ev=None, text=""):
         return "C04"
     if name in ("obs-rt",):
         return "C06"
+    if name in ("obs-grad",):
+        return "C05"
+    if name in ("obs-twin",):
+        return "C10"
     if name in ("obs-exact-qspace", "obs-exact-q"):
         return "C02"
     if name in ("obs-exact-ispace", "obs-exact-i", "obs-exact-exception"):
